@@ -685,45 +685,45 @@ theorem Sphere3_intersectT (sqrt : α → α) (hsqrt : SqrtSpec sqrt) (s : Spher
       0 ≤ (Gen.Sphere3.intersectT sqrt s l).2 ∧ OnSphere s (lineAt l (Gen.Sphere3.intersectT sqrt s l).2) ∧
       ∀ t, 0 ≤ t → OnSphere s (lineAt l t) → (Gen.Sphere3.intersectT sqrt s l).2 ≤ t) ∧
     ((Gen.Sphere3.intersectT sqrt s l).1 = false → ∀ t, 0 ≤ t → ¬ OnSphere s (lineAt l t)) := by
-  -- on-sphere ⇔ root of the quadratic
+  -- on-sphere ⇔ root of the quadratic t² + B t + C
   have hq : ∀ t, OnSphere s (lineAt l t) ↔
       t ^ 2 + (2 * dot l.dir (sub l.pos s.center)) * t + (dot (sub l.pos s.center) (sub l.pos s.center) - s.radius * s.radius) = 0 := by
     intro t; unfold OnSphere; rw [← sphere_quadratic s l hu t]; constructor <;> intro h <;> linarith
   simp only [hq]
-  generalize hB : 2 * dot l.dir (sub l.pos s.center) = B
-  generalize hC : dot (sub l.pos s.center) (sub l.pos s.center) - s.radius * s.radius = C
-  have hBdef : (2 : α) * (l.dir.x * (l.pos.x - s.center.x) + l.dir.y * (l.pos.y - s.center.y) + l.dir.z * (l.pos.z - s.center.z)) = B := by
-    rw [← hB]; simp only [dot, sub]
-  have hCdef : ((l.pos.x - s.center.x) * (l.pos.x - s.center.x) + (l.pos.y - s.center.y) * (l.pos.y - s.center.y)
-      + (l.pos.z - s.center.z) * (l.pos.z - s.center.z)) - s.radius * s.radius = C := by
-    rw [← hC]; simp only [dot, sub]
-  simp only [Gen.Sphere3.intersectT, hBdef, hCdef]
-  -- discriminant and its root
-  by_cases hd : B * B - 4 * C < 0
-  · rw [if_pos hd]
+  obtain ⟨res, hres⟩ : ∃ res, res = Gen.Sphere3.intersectT sqrt s l := ⟨_, rfl⟩
+  rw [← hres]
+  simp only [Gen.Sphere3.intersectT] at hres
+  -- name the discriminant (whatever its spelling) and relate it to B, C by `ring`
+  fun_arg_intro sqrt D hD
+  have hDs : D = (2 * dot l.dir (sub l.pos s.center)) * (2 * dot l.dir (sub l.pos s.center))
+      - 4 * (dot (sub l.pos s.center) (sub l.pos s.center) - s.radius * s.radius) := by
+    rw [← hD]; simp only [dot, sub]; ring
+  by_cases hd : D < 0
+  · rw [if_pos hd] at hres
+    subst hres
     refine ⟨fun h => (by cases h), fun _ t _ ht => ?_⟩
-    nlinarith [sq_nonneg (2 * t + B)]
-  · rw [if_neg hd]
-    obtain ⟨hr, hr0⟩ := hsqrt _ (not_lt.mp hd)
-    generalize sqrt (B * B - 4 * C) = r at *
-    -- factorisation t² + B t + C = (t − t0)(t − t1)
-    have hfac : ∀ t, t ^ 2 + B * t + C = (t - (-B - r) * (1 / 2)) * (t - (-B + r) * (1 / 2)) := by
-      intro t; linear_combination ((1 : α) / 4) * hr
-    split_ifs with h0 h1
+    nlinarith [sq_nonneg (2 * t + 2 * dot l.dir (sub l.pos s.center))]
+  · rw [if_neg hd] at hres
+    obtain ⟨hr, hr0⟩ := hsqrt D (not_lt.mp hd)
+    generalize sqrt D = r at *
+    have hfac : ∀ t, t ^ 2 + (2 * dot l.dir (sub l.pos s.center)) * t + (dot (sub l.pos s.center) (sub l.pos s.center) - s.radius * s.radius)
+        = (t - (-(2 * dot l.dir (sub l.pos s.center)) - r) * (1 / 2)) * (t - (-(2 * dot l.dir (sub l.pos s.center)) + r) * (1 / 2)) := by
+      intro t; rw [hDs] at hr; linear_combination ((1 : α) / 4) * hr
+    simp only [dot, sub] at hfac hres ⊢
+    split_ifs at hres with h0 h1 <;> subst hres <;> simp only []
     · -- both roots negative
       refine ⟨fun h => (by cases h), fun _ t ht hroot => ?_⟩
       rw [hfac] at hroot
       rcases mul_eq_zero.mp hroot with h | h <;> linarith
     · -- smaller root negative, larger one non-negative
-      refine ⟨fun _ => ⟨not_lt.mp h1, ?_, fun t ht hroot => ?_⟩, fun h => (by cases h)⟩
+      refine ⟨fun _ => ⟨by linarith, ?_, fun t ht hroot => ?_⟩, fun h => (by cases h)⟩
       · rw [hfac]; ring
       · rw [hfac] at hroot
         rcases mul_eq_zero.mp hroot with h | h <;> linarith
-    · refine ⟨fun _ => ⟨not_lt.mp h0, ?_, fun t ht hroot => ?_⟩, fun h => (by cases h)⟩
+    · refine ⟨fun _ => ⟨by linarith, ?_, fun t ht hroot => ?_⟩, fun h => (by cases h)⟩
       · rw [hfac]; ring
       · rw [hfac] at hroot
         rcases mul_eq_zero.mp hroot with h | h <;> linarith
-
 
 /-- `Sphere3::intersect`: same verdict as `intersectT`, and the point at that parameter -/
 theorem Sphere3_intersect (sqrt : α → α) (s : Sphere3 α) (l : Line3 α) :
